@@ -150,3 +150,31 @@ func asFloat(v any) (f float64, ok bool) {
 	}
 	return
 }
+
+// cmpNum compares two numbers. Two integers are compared exactly, any other
+// combination as float64. The ok return is false if either is not a number.
+func cmpNum(a, b any) (c int, ok bool) {
+	if ia, aok := asInt(a); aok {
+		if ib, bok := asInt(b); bok {
+			switch {
+			case ia < ib:
+				c = -1
+			case ib < ia:
+				c = 1
+			}
+			return c, true
+		}
+	}
+	fa, aok := asFloat(a)
+	fb, bok := asFloat(b)
+	if !aok || !bok {
+		return 0, false
+	}
+	switch {
+	case fa < fb:
+		c = -1
+	case fb < fa:
+		c = 1
+	}
+	return c, true
+}
